@@ -57,6 +57,7 @@ class _Handler(BaseHTTPRequestHandler):
         entry = {"path": self.path, "agent": self.headers.get("User-Agent", ""), "kind": plan.get("kind"),
                  "status": plan.get("status", 200), "sent": 0, "client_hung_up": False, "t": time.time()}
         srv.log.append(entry)
+        release, stalled = srv.release, srv.stalled     # the events of *this* plan
         self.close_connection = True
         body = plan.get("body", b"")
         try:
@@ -106,10 +107,10 @@ class _Handler(BaseHTTPRequestHandler):
                     if k:
                         self._raw(body[:k])
                     entry["sent"] = k
-                srv.stalled.set()
+                stalled.set()
                 deadline = time.time() + plan.get("hold", 5.0)
                 self.connection.settimeout(0.05)
-                while time.time() < deadline and not srv.release.is_set():
+                while time.time() < deadline and not release.is_set():
                     try:
                         if self.connection.recv(1) == b"":
                             entry["client_hung_up"] = True
